@@ -1475,6 +1475,9 @@ def run2(pid, tier, t0, par, lay, nat):
             reached["pskel"].append((x[0], x[1]))
         t_expl += time.time() - t_ps         # the other families keep their own budget
     if only:
+        # a development run of one family never replaces the evidence of the full check
+        common.EVID = os.path.join(common.WORK, "dev-evidence")
+        os.makedirs(common.EVID, exist_ok=True)
         return finish(pid, tier, t0, cfg, reached, results, nat, nval, n_lex_texts, n_line_texts) if only == ["parse-skel"] else \
             _only_not_supported(only)
     # 1. line table, end of file, skeletons; whole texts and the parser on every text up to the base length
